@@ -283,6 +283,13 @@ impl TopK<'_> {
             let line = format!("tstep {max} {} {} {}", table_text(&before), hx(key.as_bytes()), table_text(&after));
             if before.len() <= 400 && after.len() <= 400 {
                 self.out.line(line.clone(), "ok".into());
+                // a distinct non-trivial case = an update that evicts, or meets a key already tracked
+                if after.len() < before.len() || before.iter().any(|(k, _)| k == key) {
+                    self.out.note_case(&line);
+                }
+                if self.out.samples.len() < 4 && line.len() < 300 && after.len() >= 2 {
+                    self.out.sample(line.clone());
+                }
             }
             if replay.len() < 40 {
                 replay.push(line.clone());
